@@ -53,7 +53,7 @@ func (c *connection) SelectLost() {
 // T7Expired injects evT7Timeout (NOT-SELECTED dwell expiry) — TransportRuntime. See the interface doc.
 func (c *connection) T7Expired() {
 	if s := c.sup.Load(); s != nil {
-		s.inject(evT7Timeout)
+		s.injectTagged(evT7Timeout)
 	}
 }
 
